@@ -98,6 +98,11 @@ def check_vector(v, dt, ids, acc, case, order, full):
     maxreq = 3 if full else 2
     for k in range(1, maxreq + 1):
         reqs += list(itertools.product(REQ, repeat=k))
+    # long request lists and ids far outside the range of the vector (other code paths of the
+    # membership test)
+    reqs += [(10 ** 6,), (0, 10 ** 6), (2, 10 ** 6, 0), tuple(range(30)), tuple(range(29, -1, -1)) + (10 ** 6,),
+             (0, 10 ** 6) + tuple(range(40, 62)), (5, 2) + tuple(range(100, 125)) + (10 ** 6,),
+             tuple(range(300, 330)) + (present[0],) if present else (7,)]
     for req in reqs:
         exp = sorted(i for c in set(req) for i in groups.get(c, []))
         for cont in ('list', 'array'):
